@@ -24,6 +24,11 @@ pub fn plan(tier: &str, seed: u64) -> Vec<Batch> {
             v.push(Batch { check: "C12".into(), phase: "sequential".into(), uni: uni.clone(), seed, lo: i * PER_BATCH, hi: (i + 1) * PER_BATCH, fresh: false, tier: tier.into(), extra: Value::Null });
         }
         for i in 0..conc {
+            if i == 0 {
+                for sc in 0..fault_scenarios().len() as u64 {
+                    v.push(Batch { check: "C12".into(), phase: "fault-enum".into(), uni: uni.clone(), seed, lo: sc, hi: sc + 1, fresh: false, tier: tier.into(), extra: Value::Null });
+                }
+            }
             v.push(Batch { check: "C12".into(), phase: "concurrent".into(), uni: uni.clone().workers(4), seed, lo: i * PER_BATCH, hi: (i + 1) * PER_BATCH, fresh: false, tier: tier.into(), extra: Value::Null });
         }
         // bounded-preemption enumeration on the canonical scenarios
@@ -263,7 +268,8 @@ impl Hooks for H {
             }
             Outcome::Err { .. } => {
                 if let Some(Ok((label, rest))) = &exp {
-                    if !bad_mode {
+                    // a call that fails under an injected fault is an acceptable error (fault-enum phase)
+                    if !bad_mode && rec.faults_inside == 0 {
                         fail("fails-where-it-must-succeed", format!("mkdir_all({path:?}) failed ({}) although {label:?} exists and {rest:?} are creatable", rec.outcome.class()));
                     }
                 }
@@ -287,6 +293,67 @@ impl Hooks for H {
         }
         let _ = strip_root;
     }
+}
+
+/// fixed world and calls for the fault enumeration: every (system call of the call, errno of its
+/// catalogue); a failed call may have created a prefix of the missing chain and nothing else, a call
+/// that reports success has created all of it
+pub fn fault_world() -> WorldSpec {
+    let mut w = WorldSpec::default();
+    w.push(crate::world::Entry::dir("root"));
+    w.push(crate::world::Entry::file("root/a/f", "F"));
+    w.push(crate::world::Entry::dir("root/a/sub"));
+    w.push(crate::world::Entry::link("root/l", "a"));
+    w.push(crate::world::Entry::link("root/esc", "/mnt/w/outside"));
+    w.push(crate::world::Entry::file("outside/secret", "OUTSIDE-SECRET"));
+    w
+}
+
+pub fn fault_scenarios() -> Vec<OpSpec> {
+    let o = |p: &str, mode: u32| OpSpec::new(Op::MkdirAll { path: p.to_string(), mode });
+    let mut nosym = o("a/q/r", 0o755);
+    nosym.no_symlinks = true;
+    vec![
+        o("a/b/c/d", 0o755),
+        o("l/x/y", 0o700),
+        o("a/../a/n1/n2", 0o711),
+        o("n/m", 0o755).c(),
+        o("a/sub/t", 0o1777),
+        o("a/sub", 0o755),
+        o("a/f/x", 0o755),
+        o("/abs/p/q", 0o750),
+        o("esc/e1/e2", 0o755),
+        o("l/x/y", 0o700).c(),
+        nosym,
+    ]
+}
+
+fn run_fault_enum(u: &mut Universe, b: &Batch, idx: u64, st: &mut Stats) -> bool {
+    let op = fault_scenarios()[idx as usize].clone();
+    let mk = |script: Vec<Dec>| {
+        let mut c = Case::new("C12", "fault-enum", b.uni.clone());
+        c.world = Some(fault_world());
+        c.jobs = vec![vec![op.clone()]];
+        c.plan.script = script;
+        c.umask = 0o022;
+        c
+    };
+    let out0 = run_case(u, &mk(vec![]), &mut crate::sup::NoHooks, false);
+    if let Some(e) = &out0.harness_error {
+        st.harness_errors.push(format!("fault-enum {idx}: {e}"));
+        return false;
+    }
+    let sites: Vec<(usize, i64)> = out0.trace.iter().filter(|e| e.lib && e.op == Some(0) && e.nr != crate::seam::HYPERCALL_NR && e.nr != libc::SYS_futex).map(|e| (e.step, e.nr)).collect();
+    for (step, nr) in sites {
+        for f in crate::sup::fault_catalogue(nr) {
+            let case = mk(vec![Dec { step, fault: Some(f), ..Default::default() }]);
+            if !run_seq(u, &case, st, false) || u.poisoned {
+                return false;
+            }
+            st.count("fault_enum.placements", 1);
+        }
+    }
+    true
 }
 
 pub fn gen_seq_case(seed: u64, idx: u64, uni: &UniCfg) -> Case {
@@ -523,6 +590,11 @@ pub fn run(u: &mut Universe, b: &Batch, st: &mut Stats) {
                     return;
                 }
             }
+            "fault-enum" => {
+                if !run_fault_enum(u, b, idx, st) {
+                    return;
+                }
+            }
             _ => {
                 // bounded-preemption enumeration
                 let (w, jobs) = conc_scenarios()[idx as usize].clone();
@@ -637,7 +709,7 @@ pub fn finalise(tier: &str, seed: u64, res: coord::CheckResult) -> i32 {
         tier,
         seed,
         "exploration",
-        "sequential: one evaluation = one mkdir_all on a generated quiescent tree, expectation derived from raw openat2 queries before the call (deepest existing prefix, remaining components), post-state compared with the whole-tree snapshot; concurrent: one evaluation = 2-4 caller threads running mkdir_all for same/overlapping/disjoint paths under a seeded scheduler (uniform switching or PCT) that decides who runs between any two system calls; preempt: every schedule with at most one (thorough, K: two) preemption(s) for four canonical two-thread scenarios; non-trivial = (sequential) the call had to create something or succeeded / (concurrent) at least one context switch away from the default order happened; distinct = hash of (case, interleaving)",
+        "sequential: one evaluation = one mkdir_all on a generated quiescent tree, expectation derived from raw openat2 queries before the call (deepest existing prefix, remaining components), post-state compared with the whole-tree snapshot; concurrent: one evaluation = 2-4 caller threads running mkdir_all for same/overlapping/disjoint paths under a seeded scheduler (uniform switching or PCT) that decides who runs between any two system calls; fault-enum: 11 fixed calls x every (system call of the call, errno of its catalogue) - a call that fails may have created only directories of the missing chain (a prefix of the requested path), a call that reports success has created all of them with the requested mode; preempt: every schedule with at most one (thorough, K: two) preemption(s) for four canonical two-thread scenarios; non-trivial = (sequential) the call had to create something or succeeded / (concurrent) at least one context switch away from the default order happened; distinct = hash of (case, interleaving)",
         res,
         extra,
         vec!["preemption only at trapped system calls".into(), "umask 022, no setgid parents in generated worlds".into()],
